@@ -231,7 +231,7 @@ def evaluate(component, cases, outcome, keep_samples=3, batch=2000, deadline=Non
         if len(pending) >= batch:
             flush()
 
-    extra = 0
+    extra = extra2 = 0
     for n, case in enumerate(cases):
         if deadline is not None and time.time() > deadline:
             outcome.count("search-stopped-at-deadline")
@@ -239,11 +239,17 @@ def evaluate(component, cases, outcome, keep_samples=3, batch=2000, deadline=Non
         run_one(case)
         # the same case once more under another ambient configuration of the process (every 4th case, at most 2500 per suite):
         # the library must behave the same with its debug logging switched on
-        if n % 4 == 0 and extra < 2500 and isinstance(case, dict) and "_env" not in case and not case.get("loghandler") \
+        stride = 4 if n < 4000 else 40            # dense at the start of a suite, sparse (but present) all the way through a long one
+        if n % stride == 0 and extra < 3500 and isinstance(case, dict) and "_env" not in case and not case.get("loghandler") \
                 and getattr(component, "AMBIENT", True):
             extra += 1
             outcome.count("ambient:debuglog")
             run_one(dict(case, _env="debuglog"))
+        elif n % stride == 2 and extra2 < 3000 and isinstance(case, dict) and "_env" not in case and getattr(component, "AMBIENT", True):
+            # ... and with the application's decimal context set to a low precision (the library must not depend on it)
+            extra2 += 1
+            outcome.count("ambient:lowprec")
+            run_one(dict(case, _env="lowprec"))
     flush()
 
 
@@ -260,6 +266,15 @@ class _FormattingHandler(logging.Handler):
 @contextlib.contextmanager
 def ambient(env):
     """run a case under an ambient configuration: "debuglog" = the library's loggers at DEBUG with a formatting handler"""
+    if env == "lowprec":
+        import decimal
+        old = decimal.getcontext()
+        decimal.setcontext(decimal.Context(prec=6))
+        try:
+            yield
+        finally:
+            decimal.setcontext(old)
+        return
     if env != "debuglog":
         yield
         return
